@@ -217,3 +217,82 @@ func TestVerifWaitConcurrent(t *testing.T) {
 		tr.op("trial", ss("99", i64(int64(g))), ss("-1"))
 	}
 }
+
+// a writer that lets the first Write through only when told to (SaveCache holds the policy lock while it writes)
+type vslowWriter struct {
+	entered chan struct{}
+	release chan struct{}
+	first   bool
+}
+
+func (w *vslowWriter) Write(p []byte) (int, error) {
+	if !w.first {
+		w.first = true
+		w.entered <- struct{}{}
+		<-w.release
+	}
+	return len(p), nil
+}
+
+// C20 "Wait returns for every caller": the batch that holds the Wait markers is ready while the policy lock is busy
+// for a long time - held directly, or by SaveCache writing to a slow writer - and NOTHING is written afterwards.  The
+// maintenance goroutine must apply the batch as soon as the lock is free; the writes queued ahead of the markers must
+// have been applied when Wait returns.
+func TestVerifWaitBusyPolicyLock(t *testing.T) {
+	tr := vopen(t, "waitbusy")
+	defer tr.close()
+	tr.init(0)
+	clockOff()
+	xrandOff()
+	trials := vscale(6, 60)
+	for c := 0; c < trials; c++ {
+		s := NewStore(&StoreOptions[int, int]{MaxSize: 1000})
+		time.Sleep(20 * time.Millisecond) // the maintenance goroutines are up
+		viaPersist := c%2 == 1
+		var sw *vslowWriter
+		pdone := make(chan struct{})
+		if viaPersist {
+			sw = &vslowWriter{entered: make(chan struct{}, 1), release: make(chan struct{})}
+			go func() { _ = s.Persist(1, sw); close(pdone) }()
+			<-sw.entered // SaveCache holds the policy lock and is writing
+		} else {
+			s.policyMu.Lock()
+		}
+		nw := 1 + c%3
+		var returned atomic.Int64
+		for g := 0; g < nw; g++ {
+			go func(g int) {
+				s.Set(100+g, g, 1, 0)
+				s.Wait()
+				returned.Add(1)
+			}(g)
+		}
+		time.Sleep(time.Duration(30+20*(c%4)) * time.Millisecond) // the batch is ready, the lock is still busy
+		if viaPersist {
+			close(sw.release)
+			<-pdone
+		} else {
+			s.policyMu.Unlock()
+		}
+		deadline := time.Now().Add(10 * time.Second)
+		for returned.Load() < int64(nw) && time.Now().Before(deadline) {
+			time.Sleep(time.Millisecond)
+		}
+		if got := returned.Load(); got < int64(nw) {
+			how := "held by another goroutine"
+			if viaPersist {
+				how = "held by SaveCache writing to a slow writer"
+			}
+			tr.viol(fmt.Sprintf("C20: %d of %d goroutines doing Set; Wait() never returned (10 s): the policy lock was busy (%s) when their batch was ready, and nothing was written afterwards", int64(nw)-got, nw, how))
+		} else {
+			for g := 0; g < nw; g++ {
+				e := s.shards[func() int { _, i := s.index(100 + g); return i }()].hashmap[100+g]
+				if e == nil || e.meta.prev == nil {
+					tr.viol(fmt.Sprintf("C20: Wait returned but the Set(%d) queued before it has not been applied to the policy", 100+g))
+				}
+			}
+		}
+		tr.op("trial", ss("88", b2s(viaPersist), i64(int64(nw))), ss(i64(returned.Load())))
+		s.Close()
+	}
+}
